@@ -110,6 +110,22 @@ fn with_retain<R>(f: impl FnOnce() -> R) -> R {
     r
 }
 
+thread_local! {
+    static SIZES: RefCell<std::collections::HashMap<(usize, Value), usize>> = RefCell::new(std::collections::HashMap::new());
+}
+/// encoded size of a message (memoised: asked once per execution)
+fn msg_size(s: &dyn IoShape, v: &Value) -> usize {
+    let key = (s.id().as_ptr() as usize, v.clone());
+    SIZES.with(|m| {
+        if let Some(x) = m.borrow().get(&key) {
+            return *x;
+        }
+        let e = encode(&s.desc(), v, 1 << 20, 0).map(|i| i.extent).unwrap_or(0);
+        m.borrow_mut().insert(key, e);
+        e
+    })
+}
+
 fn with_policy<R>(p: usize, f: impl FnOnce() -> R) -> R {
     CHUNK_POLICY.with(|c| c.set(p));
     let r = f();
@@ -338,6 +354,7 @@ struct RecvRun {
 }
 
 fn run_receiver_blocking(s: &dyn IoShape, cap: CapSpec, stream: &[u8], faults: &FaultCfg, chunking: bool) -> RecvRun {
+    reset_chunk_calls();
     let st = Rc::new(RefCell::new(SourceState { stream: stream.to_vec(), pos: 0, calls: 0, calls_in_op: 0, horizon_per_op: 2 * stream.len() + 16, faults: FaultState::default(), max_offered: 0 }));
     let outs: RefCell<Vec<(RecvOut, usize)>> = RefCell::new(vec![]);
     let errs = std::cell::Cell::new(0usize);
@@ -596,7 +613,8 @@ fn run_async(s: &dyn IoShape, cap: CapSpec, seq: &[Value], pipe_cap: usize, spur
     let recvs: Rc<RefCell<Vec<RecvOut>>> = Rc::new(RefCell::new(vec![]));
     let retained: Rc<RefCell<Vec<usize>>> = Rc::new(RefCell::new(vec![]));
     let total: usize = seq.len();
-    let horizon = 64 + 8 * (seq.len() + 1) * 48 + 40 * seq.len() * 16;
+    let total_bytes: usize = seq.iter().map(|v| msg_size(s, v)).sum();
+    let horizon = 64 + 8 * (seq.len() + 1) * 48 + 40 * seq.len() * 16 + 8 * total_bytes;
     let r = catch(|| {
         let (p1, p2, s1, r1) = (pipe.clone(), pipe.clone(), sends.clone(), recvs.clone());
         let pw = pipe.clone();
@@ -631,7 +649,7 @@ fn run_async(s: &dyn IoShape, cap: CapSpec, seq: &[Value], pipe_cap: usize, spur
         let ret1 = retained.clone();
         let rctl = Box::new(move |o: &RecvOut| {
             r1.borrow_mut().push(o.clone());
-            if r1.borrow().len() > 64 {
+            if r1.borrow().len() > 64.max(2 * total + 8) {
                 return Go::Stop;
             }
             match o {
@@ -1091,7 +1109,7 @@ fn hostile_streams(d: &Desc, thorough: bool) -> Vec<(Vec<u8>, &'static str)> {
 fn judge_hostile(cx: &mut Ctx, variant: &str, cap: CapSpec, stream: &[u8], origin: &str, outs: &[RecvOut], panic: &Option<String>, end: Option<&ExecEnd>, trace: &[(u16, u16)]) {
     let d = cx.d.clone();
     let c = buf_len(cap, &d);
-    let replay = json!({"engine": "io_explore", "mode": "hostile", "variant": variant, "shape": cx.s.id(), "cap": format!("{:?}", cap), "stream": hex(stream), "origin": origin, "choices": choices_json(trace)});
+    let replay = json!({"engine": "io_explore", "policy": CHUNK_POLICY.with(|c| c.get()), "mode": "hostile", "variant": variant, "shape": cx.s.id(), "cap": format!("{:?}", cap), "stream": hex(stream), "origin": origin, "choices": choices_json(trace)});
     if let Some(p) = panic {
         let key = if p.contains(HORIZON_MSG) { format!("hostile/{}/hang", variant) } else { format!("hostile/{}/panic/{}", variant, panic_site(p)) };
         cx.violate(key, format!("{} on stream {} ({}) cap {:?} after {} results", p, hex(stream), origin, cap, outs.len()), replay);
@@ -1146,6 +1164,7 @@ fn judge_hostile(cx: &mut Ctx, variant: &str, cap: CapSpec, stream: &[u8], origi
 }
 
 fn run_receiver_async_only(s: &dyn IoShape, cap: CapSpec, stream: &[u8]) -> (Vec<RecvOut>, Option<String>, ExecEnd) {
+    reset_chunk_calls();
     let pipe = APipe::new(stream.len().max(1), 1);
     {
         let mut p = pipe.borrow_mut();
@@ -1220,6 +1239,200 @@ fn parse_choices(j: &serde_json::Value) -> Vec<(u16, u16)> {
     j.as_array().map(|a| a.iter().map(|p| (p[0].as_u64().unwrap() as u16, p[1].as_u64().unwrap() as u16)).collect()).unwrap_or_default()
 }
 
+// ============================================================================================
+// beyond the small scope: messages of hundreds (T: thousands) of bytes, streams of 70 messages
+// ============================================================================================
+
+/// one message per target size (first ladder value whose image reaches it)
+fn huge_messages(d: &Desc, thorough: bool) -> Vec<(Value, usize)> {
+    let targets: &[usize] = if thorough { &[140, 300, 1100, 4200] } else { &[140, 300] };
+    let mut out: Vec<(Value, usize)> = vec![];
+    for t in targets {
+        for nn in refmodel::values::scale_ladder(true) {
+            if let Some(v) = refmodel::values::scaled_value(d, nn) {
+                if let Ok(i) = encode(d, &v, nn * 64 + 4096, 0) {
+                    if i.extent >= *t {
+                        if out.iter().all(|(_, e)| *e != i.extent) {
+                            out.push((v, i.extent));
+                        }
+                        break;
+                    }
+                }
+            } else {
+                break;
+            }
+        }
+    }
+    out
+}
+
+/// the default chunk sizes of a long run: as much as fits, one byte, and sizes around the thresholds a
+/// maintainer would pick (a byte counter, a page of 256)
+const LONG_POLICIES: [usize; 8] = [0, 1, 7, 100, 255, 256, 257, 3];
+
+/// deviations are only affordable where an execution has few choice points
+fn long_bound(policy: usize, stream_len: usize) -> usize {
+    let calls = if policy == 0 { 8 } else { stream_len / policy + 2 };
+    if calls <= 12 {
+        1
+    } else {
+        0
+    }
+}
+
+fn long_scenarios(d: &Desc, msgs: &Msgs, thorough: bool) -> Vec<(Vec<Value>, usize, &'static str)> {
+    // (sequence, largest message size, label)
+    let mut out = vec![];
+    for (v, e) in huge_messages(d, thorough) {
+        out.push((vec![msgs.vals[0].clone(), v.clone(), msgs.vals[msgs.vals.len() - 1].clone()], e.max(msgs.s), "huge_between_small"));
+        out.push((vec![v.clone(), v.clone()], e.max(msgs.s), "huge_twice"));
+    }
+    let n = if thorough { 150 } else { 70 };
+    out.push(((0..n).map(|i| msgs.vals[(i + i / 4) % msgs.vals.len()].clone()).collect(), msgs.s, "long_sequence"));
+    out
+}
+
+fn mode_long_blocking(cx: &mut Ctx) {
+    let d = cx.d.clone();
+    let msgs = pick_messages(&d, cx.thorough);
+    let max_execs = if cx.thorough { 200_000 } else { 20_000 };
+    for (seq, s_max, label) in long_scenarios(&d, &msgs, cx.thorough) {
+        for cap in [CapSpec::Io(s_max.max(1)), CapSpec::Buf(s_max.max(1) + 1)] {
+            let blen = buf_len(cap, &d);
+            let (stream, _m, sizes) = stream_of(&d, &seq, blen);
+            for policy in LONG_POLICIES {
+                if policy > stream.len() {
+                    continue;
+                }
+                let dev = long_bound(policy, stream.len());
+                let s = cx.s;
+                let mut results: Vec<(Vec<(u16, u16)>, SendRun)> = vec![];
+                let st = with_policy(policy, || explore(Some(dev), max_execs, || run_sender_blocking(s, cap, &seq, Kind::Iter, &FaultCfg::off(), s_max), |t, r| results.push((t.to_vec(), r))));
+                let mut sink = None;
+                for (t, r) in &results {
+                    with_policy(policy, || judge_sender(cx, "blocking", cap, &seq, r, t, false));
+                    if t.iter().all(|(c, _)| *c == 0) {
+                        sink = Some(r.sink.clone());
+                    }
+                }
+                account(cx, &st, Some(dev), stream.len(), "long_sender");
+                let real = sink.filter(|x| x.len() == stream.len()).unwrap_or(stream.clone());
+                let mut rres: Vec<(Vec<(u16, u16)>, RecvRun)> = vec![];
+                let st = with_policy(policy, || explore(Some(dev), max_execs, || run_receiver_blocking(s, cap, &real, &FaultCfg::off(), true), |t, r| rres.push((t.to_vec(), r))));
+                for (t, r) in &rres {
+                    with_policy(policy, || judge_receiver_exact(cx, "blocking", cap, &seq, &real, &sizes, r, t));
+                }
+                account(cx, &st, Some(dev), stream.len(), "long_receiver");
+                cx.acc.distinct.insert(format!("{}:long:{}:{}:{:?}", cx.s.id(), label, policy, cap));
+                cx.acc.count("long_runs", (results.len() + rres.len()) as u64);
+            }
+        }
+    }
+}
+
+fn mode_long_async(cx: &mut Ctx) {
+    let d = cx.d.clone();
+    let msgs = pick_messages(&d, cx.thorough);
+    let max_execs = if cx.thorough { 100_000 } else { 8_000 };
+    for (seq, s_max, label) in long_scenarios(&d, &msgs, cx.thorough) {
+        let cap = CapSpec::Io(s_max.max(1));
+        let blen = buf_len(cap, &d);
+        let (stream, _m, _sizes) = stream_of(&d, &seq, blen);
+        for policy in [0usize, 1, 100, 256, 257] {
+            if policy > stream.len() {
+                continue;
+            }
+            for pc in [3usize, 100, 300, 2 * s_max.max(1)] {
+                if pc > 2 * stream.len() || (policy == 1 && pc > 3) {
+                    continue;
+                }
+                // the schedule of two tasks multiplies the choice points: deviations only for the coarse runs
+                let dev = if (policy == 0 || policy >= 100) && pc >= 100 && stream.len() <= 1400 { 1 } else { 0 };
+                let s = cx.s;
+                let mut res: Vec<(Vec<(u16, u16)>, AsyncRun)> = vec![];
+                let st = with_policy(policy, || explore(Some(dev), max_execs, || run_async(s, cap, &seq, pc, 0, &FaultCfg::off(), &FaultCfg::off()), |t, r| res.push((t.to_vec(), r))));
+                for (t, r) in &res {
+                    with_policy(policy, || judge_async(cx, cap, pc, &seq, r, t));
+                }
+                account(cx, &st, Some(dev), stream.len(), "long_async");
+                cx.acc.distinct.insert(format!("{}:long:{}:{}:{}", cx.s.id(), label, policy, pc));
+                cx.acc.count("long_runs", res.len() as u64);
+            }
+        }
+    }
+}
+
+/// C10 at length: a long valid prefix (70 messages) followed by nothing / a truncated message / a malformed
+/// one, delivered byte by byte and in large chunks, to both receivers
+fn mode_long_hostile(cx: &mut Ctx) {
+    let d = cx.d.clone();
+    if d.min_size() == 0 {
+        return;
+    }
+    let msgs = pick_messages(&d, cx.thorough);
+    let s_ = msgs.s.max(1);
+    let cap = CapSpec::Io(s_);
+    let blen = buf_len(cap, &d);
+    let n = if cx.thorough { 150 } else { 70 };
+    let seq: Vec<Value> = (0..n).map(|i| msgs.vals[(i + i / 4) % msgs.vals.len()].clone()).collect();
+    let (valid, _m, _sizes) = stream_of(&d, &seq, blen);
+    let mut streams: Vec<(Vec<u8>, &'static str)> = vec![(valid.clone(), "long_valid")];
+    // tails taken from the small hostile set: truncated and malformed single messages
+    for (t, o) in hostile_streams(&d, false).into_iter().filter(|(t, o)| !t.is_empty() && (*o == "mutated" || *o == "truncated")).take(6) {
+        let mut st = valid.clone();
+        st.extend_from_slice(&t);
+        streams.push((st, if o == "mutated" { "long_then_mutated" } else { "long_then_truncated" }));
+    }
+    // streams that END exactly at pipe read number R (one byte per read before that): a prefix of the valid
+    // stream cut at a message boundary so that read R delivers the rest of its last message
+    let mut bounds = vec![0usize];
+    {
+        let mut pos = 0;
+        for v in &seq {
+            pos += msg_size(cx.s, v);
+            bounds.push(pos);
+        }
+    }
+    let mut runs: Vec<(Vec<u8>, &'static str, usize)> = vec![];
+    for (st, o) in &streams {
+        for policy in [1usize, 0, 7] {
+            runs.push((st.clone(), *o, policy));
+        }
+    }
+    for r in [8usize, 16, 32, 33, 63, 64, 65, 100, 127, 128, 129, 200, 255, 256, 257] {
+        if let Some(end) = bounds.iter().find(|b| **b >= r) {
+            if *end <= valid.len() {
+                runs.push((valid[..*end].to_vec(), "ends_at_read_r", SWITCH_BASE + r - 1));
+                // the same with a truncated message behind it (the receiver must still hand out the complete ones)
+                if *end + 1 <= valid.len() {
+                    runs.push((valid[..*end + 1].to_vec(), "ends_at_read_r_plus_fragment", SWITCH_BASE + r - 1));
+                }
+            }
+        }
+    }
+    let max_execs = 4_000;
+    for (stream, origin, policy) in &runs {
+        let policy = *policy;
+        {
+            let s = cx.s;
+            let mut rres: Vec<(Vec<(u16, u16)>, RecvRun)> = vec![];
+            let st = with_policy(policy, || explore(Some(0), max_execs, || run_receiver_blocking(s, cap, stream, &FaultCfg::off(), true), |t, r| rres.push((t.to_vec(), r))));
+            for (t, r) in &rres {
+                let outs: Vec<RecvOut> = r.outs.iter().map(|o| o.0.clone()).collect();
+                with_policy(policy, || judge_hostile(cx, "blocking", cap, stream, origin, &outs, &r.panic, None, t));
+            }
+            account(cx, &st, Some(0), stream.len(), "long_hostile_blocking");
+            let mut ares: Vec<(Vec<(u16, u16)>, (Vec<RecvOut>, Option<String>, ExecEnd))> = vec![];
+            let st = with_policy(policy, || explore(Some(0), max_execs, || run_receiver_async_only(s, cap, stream), |t, r| ares.push((t.to_vec(), r))));
+            for (t, (outs, p, e)) in &ares {
+                with_policy(policy, || judge_hostile(cx, "async", cap, stream, origin, outs, p, Some(e), t));
+            }
+            account(cx, &st, Some(0), stream.len(), "long_hostile_async");
+            cx.acc.count("long_runs", (rres.len() + ares.len()) as u64);
+        }
+    }
+}
+
 fn main() {
     let args: Args = report::parse_args();
     report::install(if args.replay.is_some() { 0 } else { 30 });
@@ -1261,13 +1474,18 @@ fn main() {
                     "blocking" => {
                         mode_blocking(&mut cx);
                         mode_blocking_trickle(&mut cx);
+                        mode_long_blocking(&mut cx);
                     }
                     "async" => {
                         mode_async(&mut cx);
                         mode_async_trickle(&mut cx);
+                        mode_long_async(&mut cx);
                     }
                     "fault" => mode_fault(&mut cx),
-                    _ => mode_hostile(&mut cx),
+                    _ => {
+                        mode_hostile(&mut cx);
+                        mode_long_hostile(&mut cx);
+                    }
                 }
                 cx.acc.exhaustive = cx.acc.caps.is_empty();
                 let _g = out.lock().unwrap();
@@ -1316,6 +1534,7 @@ fn replay_case(shapes: &[&'static dyn IoShape], case: &serde_json::Value) -> i32
         pool.extend(pick_messages(&d, th).vals);
     }
     pool.extend(large_message(&d));
+    pool.extend(huge_messages(&d, true).into_iter().map(|(v, _)| v));
     CHUNK_POLICY.with(|c| c.set(case["policy"].as_u64().unwrap_or(0) as usize));
     RETAIN.with(|r| r.set(case["retain"].as_bool().unwrap_or(false)));
     let seq: Vec<Value> = case["seq"].as_array().map(|a| a.iter().filter_map(|x| pool.iter().find(|v| format!("{:?}", v) == x.as_str().unwrap_or("")).cloned()).collect()).unwrap_or_default();
@@ -1323,6 +1542,9 @@ fn replay_case(shapes: &[&'static dyn IoShape], case: &serde_json::Value) -> i32
     let mut msgs = pick_messages(&d, thorough);
     if let Some(big) = large_message(&d) {
         msgs.s = msgs.s.max(encode(&d, &big, 4096, 0).map(|i| i.extent).unwrap_or(0));
+    }
+    for v in &seq {
+        msgs.s = msgs.s.max(encode(&d, v, 1 << 20, 0).map(|i| i.extent).unwrap_or(0));
     }
     let kinds = vec![io::ErrorKind::Other, io::ErrorKind::Interrupted, io::ErrorKind::WouldBlock, io::ErrorKind::BrokenPipe];
     let mut verdicts = vec![];
